@@ -7,7 +7,7 @@ usage: tools/coverage_audit.py [family ...]   families: server client loop bridg
 import os, re, subprocess, sys, collections
 V = os.path.dirname(os.path.dirname(os.path.abspath(__file__)))
 FAM = {
- 'server': ('MCServer', ['srv_c01', 'srv_c03q', 'srv_c03', 'srv_c06', 'srv_c07q', 'srv_c07', 'srv_c08q', 'srv_c08', 'srv_c08u', 'srv_c08r', 'srv_c09', 'srv_c09b', 'srv_c09r', 'srv_c09n', 'srv_c07b', 'srv_c03c1', 'srv_c06c3', 'srv_send']),
+ 'server': ('MCServer', ['srv_c01', 'srv_c03q', 'srv_c03', 'srv_c06', 'srv_c07q', 'srv_c07', 'srv_c08q', 'srv_c08', 'srv_c08u', 'srv_c08r', 'srv_c09', 'srv_c09b', 'srv_c09r', 'srv_c09n', 'srv_c07b', 'srv_c03c1', 'srv_c06c3', 'srv_send', 'srv_send2']),
  'client': ('MCClient', ['cli_c04q', 'cli_c04', 'cli_c04s', 'cli_c05u', 'cli_c05m', 'cli_c05']),
  'loop': ('LoopImpl', ['loop', 'loop_net', 'loop_cov']),
  'bridge': ('MCBridge', ['bridge', 'bridge2', 'bridge3']),
